@@ -89,7 +89,31 @@ fn run(case: &mut Case) -> Result<Outcome, String> {
         1 => (0..n).map(|_| sc * case.src.f64_in(-3.0, 3.0)).collect(),
         _ => xstar.iter().map(|v| v * sc).collect(),
     };
-    let tol = 10f64.powf(case.src.f64_in(-12.0, -3.0));
+    // one case in six: a reducible (block lower triangular) pattern and a right-hand side of mixed magnitudes -
+    // O(1) on the leading block, 16 to 22 decades smaller (but non-zero) elsewhere
+    let reducible = kind >= 3 && n >= 2 && case.src.below(6) == 0;
+    let (a, b) = if reducible {
+        let split = 1 + case.src.usize_below(n - 1);
+        let mut a = a;
+        for i in 0..split {
+            for j in split..n {
+                a[i][j] = 0.0;
+            }
+        }
+        let tiny = 10f64.powf(case.src.f64_in(-22.0, -16.0));
+        let b: Vec<f64> = (0..n).map(|i| if i < split { case.src.f64_in(-2.0, 2.0) } else { tiny * case.src.f64_in(0.5, 3.0) * if case.src.coin() { 1.0 } else { -1.0 } }).collect();
+        case.class("reducible pattern with mixed-magnitude rhs");
+        (a, b)
+    } else {
+        (a, b)
+    };
+    let mut tol = 10f64.powf(case.src.f64_in(-12.0, -3.0));
+    if reducible {
+        // next to a Lanczos breakdown (reducible pattern, right-hand side almost inside an invariant subspace) the
+        // look-ahead-free recurrences lose digits; BiCG / BiCGSTAB still reach 1e-10 on the pinned tree, QMR does not
+        // always (known finding D14, attributed below by its input-level signature)
+        tol = tol.max(1e-10);
+    }
     let budget = 10 * n + 50;
     case.describe(|| format!("first solver {} n={} kind={} tol={:.3e} A={:?} b={:?} x0={:?}", SOLVERS[solver], n, KINDS[kind], tol, a, b, x0));
     // every entry point for which this kind of system is well-posed
@@ -101,8 +125,9 @@ fn run(case: &mut Case) -> Result<Outcome, String> {
     let mut judged = 0;
     let mut last_discard = "not judged";
     for sv in todo {
-        match one(case, sv, kind, n, &a, &b, &x0, &xstar, sc, tol, budget)? {
+        match one(case, sv, kind, n, &a, &b, &x0, &xstar, sc, tol, budget, reducible)? {
             Outcome::Discard(r) => last_discard = r,
+            Outcome::Known(k, w) => return Ok(Outcome::Known(k, w)),
             _ => judged += 1,
         }
     }
@@ -113,7 +138,7 @@ fn run(case: &mut Case) -> Result<Outcome, String> {
 }
 
 #[allow(clippy::too_many_arguments)]
-fn one(case: &mut Case, solver: usize, kind: usize, n: usize, a: &D, b: &[f64], x0: &[f64], xstar: &[f64], sc: f64, tol: f64, budget: usize) -> Result<Outcome, String> {
+fn one(case: &mut Case, solver: usize, kind: usize, n: usize, a: &D, b: &[f64], x0: &[f64], xstar: &[f64], sc: f64, tol: f64, budget: usize, reducible: bool) -> Result<Outcome, String> {
     let (a, b, x0, xstar) = (a.clone(), b.to_vec(), x0.to_vec(), xstar.to_vec());
     case.class(format!("{} {}", SOLVERS[solver], KINDS[kind]));
     // the requested residual must lie above the rounding floor of any residual recurrence
@@ -152,6 +177,14 @@ fn one(case: &mut Case, solver: usize, kind: usize, n: usize, a: &D, b: &[f64], 
     let it = match res {
         Ok(it) => it,
         Err(e) => {
+            // known finding D14 - signature from the input alone: QMR, block lower triangular pattern, right-hand side
+            // at least 15 decades smaller outside the leading block, tolerance below 1e-5
+            if solver == 4 && reducible && tol < 1e-5 && case.findings.is_known("C09", "D14-qmr-near-breakdown") {
+                return Ok(Outcome::Known(
+                    "D14-qmr-near-breakdown",
+                    "solve_qmr (no look-ahead) stalls above the tolerance next to a Lanczos breakdown: strictly diagonally dominant block lower triangular system whose right-hand side is O(1) on the leading block and 1e-22..1e-16 elsewhere, tolerance below 1e-5".into(),
+                ));
+            }
             return Err(format!(
                 "{} did not converge within min(10n+50, 3*ref+15) = {} iterations (Err({:.3e})) on a well-posed system on which the textbook method needs {} iterations for a 1000x smaller tolerance",
                 SOLVERS[solver], budget, e, ref_it
@@ -194,7 +227,7 @@ impl Prop for C09 {
     fn rule(&self) -> String {
         "per case (4/5) a well-posed system and every entry point it is well-posed for (all five on symmetric diagonally dominant positive systems, CG alone on B^T B + mu I, the four non-CG entry points on nonsymmetric diagonally dominant systems): CG on SPD (symmetric strictly diagonally dominant with positive diagonal, slack 1.02..3; B^T B + mu I), \
          BiCG (itol 1 and 2) / BiCGSTAB / QMR on strictly row-diagonally dominant systems (nonsymmetric with positive or mixed-sign diagonal, symmetric positive); order 1..=30 (thorough 1..=60); continuous random values, \
-         any sparsity (density 1/8..7/8) and triplet order; right-hand side A x* scaled by 1e-6..1e6 or zero; guess zero / random / exact; tol = 10^[-12,-3]; budget min(10n+50, 3*ref_it+15) where ref_it is the iteration count of the harness's textbook method at tol*1e-3. \
+         any sparsity (density 1/8..7/8) and triplet order; right-hand side A x* scaled by 1e-6..1e6 or zero, and for one nonsymmetric case in six a block lower triangular pattern with a right-hand side that is O(1) on the leading block and 1e-22..1e-16 elsewhere (tol >= 1e-10 there; QMR failures at tol < 1e-5 on this class carry the input-level signature of known finding D14, at tol >= 1e-5 they are violations); guess zero / random / exact; tol = 10^[-12,-3]; budget min(10n+50, 3*ref_it+15) where ref_it is the iteration count of the harness's textbook method at tol*1e-3. \
          Judged only when tol*||b||' >= 1e3*eps*(||A||_F*max(||x0||,||x*||)+||b||) (attainable in double precision) and the harness's textbook implementation of the method (BiCG for QMR) converges within 3n+10 iterations at tol*1e-3 and kappa_F <= 1e8 (otherwise discarded and counted): \
          the solver must answer Ok and ||x - x*||_2 <= ||A^-1||_F*(10*tol*||b||' + drift) + 1e-10*(||x*||+||x0||) against the harness's refined dense solve (||b||' = 1 when b = 0, drift as in C08), which is at most 10*kappa_F*tol*||x*|| plus rounding. \
          (1/5) degenerate starts on integer data: an initial guess with exactly zero residual, or b = 0 with x0 = 0: the answer must be Ok, x finite and still a solution. \
